@@ -427,6 +427,65 @@ fn gen_condgen_spends(s: &mut Src<'_>, blobs: &[Blob]) -> Vec<RawSpend> {
     out
 }
 
+/// one spend per bundle, all bundles of the pool cut from ONE template: the same
+/// tree shape (k REMARK conditions of one atom each in front of an optional
+/// CREATE_COIN, tagged-identity puzzle), differing in the puzzle tag, the parent
+/// and the atoms' contents and sizes. A few members carry an atom of 0.3-1.3 MB:
+/// with a truthful (tiny) declared cost such a bundle passes every cheap
+/// pre-check, is parsed into the builder's allocator, serialized, and only then
+/// rejected on its byte cost — the expensive undo path — after which the next
+/// batch is parsed into a builder that has seen (and has to have forgotten)
+/// megabytes of same-shaped content.
+fn gen_family_spends(s: &mut Src<'_>, idx: usize, k: usize) -> (Vec<RawSpend>, &'static str) {
+    let phs = condgen::tag_puzzle_hashes();
+    let tag = s.below(condgen::NUM_TAGS.min(4)) as u8 + 1;
+    let size_class = s.weighted(&[12, 2, 2]);
+    let mut parent = [0u8; 32];
+    parent[0] = 0xe0;
+    parent[1] = idx as u8;
+    let mut t = Tree::new();
+    let mut conds = vec![];
+    for j in 0..k {
+        let op = t.atom(&[1]);
+        let seed = (u64::from(s.u16()) << 8) | j as u64 | (4 << 50);
+        let len = if j == 0 {
+            match size_class {
+                0 => s.range(5, 300),
+                1 => 300_000 + s.below(300_000),
+                _ => 1_048_576 + s.below(300_000),
+            }
+        } else {
+            s.range(5, 300)
+        };
+        // a small pool of contents: members often repeat each other's atoms
+        let a = t.atom(&expand(seed & 0x3ff | (4 << 50), len));
+        conds.push(t.list(&[op, a]));
+    }
+    let amount = 2000 + idx as u64;
+    {
+        let op = t.atom(&[51]);
+        let ph = t.atom(&[0x67; 32]);
+        let am = t.atom(&enc_u64(amount / 2));
+        conds.push(t.list(&[op, ph, am]));
+    }
+    let sol = t.list(&conds);
+    let pz = condgen::tagged_identity(&mut t, tag);
+    (
+        vec![RawSpend {
+            parent,
+            puzzle_hash: phs[(tag - 1) as usize],
+            amount,
+            puzzle: t.serialize(pz),
+            solution: t.serialize(sol),
+        }],
+        match size_class {
+            0 => "family-small",
+            1 => "family-300-600kB",
+            _ => "family-over-1MiB",
+        },
+    )
+}
+
 pub fn gen_case(s: &mut Src<'_>) -> Case {
     let base_flags = match s.below(4) {
         0 => ConsensusFlags::empty(),
@@ -434,14 +493,25 @@ pub fn gen_case(s: &mut Src<'_>) -> Case {
         2 => ConsensusFlags::COST_CONDITIONS,
         _ => MEMPOOL_MODE | ConsensusFlags::COST_CONDITIONS,
     };
-    let sparse_pool = s.weighted(&[12, 3]) == 1;
+    // (all-zero choices select style 0, as they did when there were two styles)
+    let pool_style = s.weighted(&[92, 23, 3]);
+    let sparse_pool = pool_style == 1;
+    let family_pool = pool_style == 2;
     let n = s.range(6, 16);
     let blobs = gen_blobs(s);
+    let family_k = if family_pool { s.range(1, 3) } else { 0 };
     let mut pool: Vec<PBundle> = vec![];
     let mut seen: BTreeSet<[u8; 32]> = BTreeSet::new();
     for idx in 0..n {
-        let kind_sel = if sparse_pool { 1 } else { s.weighted(&[10, 2, 1]) };
+        let kind_sel = if family_pool {
+            3
+        } else if sparse_pool {
+            1
+        } else {
+            s.weighted(&[10, 2, 1])
+        };
         let (mut spends, mut kind) = match kind_sel {
+            3 => gen_family_spends(s, idx, family_k),
             0 => (gen_condgen_spends(s, &blobs), "condgen"),
             1 => (gen_sparse_spends(s, idx, &blobs), "sparse"),
             _ => (gen_simple_spends(s, idx, &blobs), "simple"),
@@ -499,7 +569,13 @@ pub fn gen_case(s: &mut Src<'_>) -> Case {
         constants,
         base_flags,
         pool,
-        style: if sparse_pool { "sparse" } else { "mixed" },
+        style: if family_pool {
+            "family"
+        } else if sparse_pool {
+            "sparse"
+        } else {
+            "mixed"
+        },
     }
 }
 
